@@ -132,3 +132,117 @@ pub fn callers(args: &Args) -> SubResult {
         e.run(&*mk, &mut |r| judge_callers(r));
     })
 }
+
+// ------------------------------------------------------------------------------------------------
+// crash shapes: every directed look-up graph on <= 3 nodes, self-loops and cycles included
+
+fn shape_scripts(n: usize) -> Vec<Vec<String>> {
+    // per ordered pair (i, j): 0 = none, 1 = K (get_cached look-up), 2 = J (load; forward only)
+    let pairs: Vec<(usize, usize)> = (0..n).flat_map(|i| (0..n).map(move |j| (i, j))).collect();
+    let arity: Vec<usize> = pairs.iter().map(|(i, j)| if i < j { 3 } else { 2 }).collect();
+    let mut out = vec![];
+    let mut idx = vec![0usize; pairs.len()];
+    loop {
+        let mut scripts = vec![String::from("L:l0"); n];
+        for (p, (i, j)) in pairs.iter().enumerate() {
+            match idx[p] {
+                1 => scripts[*i].push_str(&format!(" K:n{}", j + 1)),
+                2 => scripts[*i].push_str(&format!(" J:n{}", j + 1)),
+                _ => {}
+            }
+        }
+        out.push(scripts);
+        let mut k = 0;
+        loop {
+            if k == idx.len() {
+                return out;
+            }
+            idx[k] += 1;
+            if idx[k] < arity[k] {
+                break;
+            }
+            idx[k] = 0;
+            k += 1;
+        }
+    }
+}
+
+pub fn hist_child(input: &str, output: &str) {
+    let v: Value = serde_json::from_slice(&std::fs::read(input).expect("input")).expect("json");
+    let cfg: crate::hr::HCfg = serde_json::from_value(v["cfg"].clone()).expect("cfg");
+    let ops: Vec<String> = v["ops"].as_array().unwrap().iter().map(|x| x.as_str().unwrap().to_string()).collect();
+    let r = crate::hr::run_history(&cfg, &ops, &[]);
+    let mut res = SubResult::new("C08", "c08_shapes");
+    res.evaluations = 1;
+    res.transitions = ops.len() as u64;
+    res.states = r.steps as u64;
+    res.outcome(&(&r.canon, &r.obs));
+    crate::hsearch::report(&mut res, "c08_shapes", &cfg, &ops, &r);
+    res.write(output);
+}
+
+pub fn shapes(args: &Args) -> SubResult {
+    let mut res = SubResult::new("C08", "c08_shapes");
+    let mut all: Vec<Vec<String>> = vec![];
+    for n in 1..=3 {
+        all.extend(shape_scripts(n));
+    }
+    res.bound = format!("all {} look-up graphs on 1..3 scripted assets (per ordered pair: none / get_cached look-up / (forward only) load), self-loops and cycles included; each loaded, then a leaf edit and a script touch are notified and hot_reload is called twice; one child process per shape", all.len());
+    res.rule = "exhaustive over shapes; each executed on the real crate under detsched in a child process; oracle = child exits normally (no stack overflow / abort), no deadlock, plus the C05/C06 pass oracles; distinct = distinct (canonical state, observations)".into();
+    let total = all.len();
+    let dir = std::env::temp_dir();
+    vcommon::run_cases(args, res, total, std::time::Duration::from_secs(600), |idx, res| {
+        let scripts = &all[idx];
+        let n = scripts.len();
+        let mut files = vec!["l0.l=1".to_string()];
+        for (i, s) in scripts.iter().enumerate() {
+            files.push(format!("n{}.n={s}", i + 1));
+        }
+        let cfg = crate::hr::HCfg {
+            ctor: "hot".into(),
+            seed: (idx as u64 % 2) * 5,
+            with_other: false,
+            leaves: vec!["l0".into()],
+            nodes: (1..=n).map(|i| format!("n{i}")).collect(),
+            dirs: vec![],
+            files,
+            check_c05: true,
+            check_c06: true,
+            check_c10: false,
+            check_ledger: true,
+        };
+        let mut ops: Vec<String> = (1..=n).map(|i| format!("load N n{i}")).collect();
+        ops.extend(["put l0.l 11", "ev F:l0.l", "hr", "ev F:n1.n", "hr"].iter().map(|s| s.to_string()));
+        let inp = dir.join(format!("shape-{}-{idx}.in.json", std::process::id()));
+        let outp = dir.join(format!("shape-{}-{idx}.out.json", std::process::id()));
+        std::fs::write(&inp, serde_json::to_vec(&json!({"cfg": cfg, "ops": ops})).unwrap()).unwrap();
+        let st = vcommon::child_status(&["--hist-child".into(), inp.display().to_string(), outp.display().to_string()], std::time::Duration::from_secs(60));
+        let replay = json!({"engine": "sysmc", "harness": "history", "params": {"cfg": cfg, "ops": ops}, "choices": []});
+        match st {
+            Ok(s) if s.success() => {
+                let part: SubResult = serde_json::from_slice(&std::fs::read(&outp).unwrap()).unwrap();
+                let r = res.cur_rank;
+                res.merge(part);
+                res.cur_rank = r;
+            }
+            Ok(s) => {
+                res.evaluations += 1;
+                use std::os::unix::process::ExitStatusExt;
+                let how = match s.signal() {
+                    Some(sig) => format!("signal{sig}"),
+                    None => format!("exit{}", s.code().unwrap_or(-1)),
+                };
+                res.violation(format!("c08_shapes:crash[{how}]"), format!("the process died ({s}) while hot-reloading the look-up graph {scripts:?}"), replay);
+            }
+            Err(e) => {
+                res.evaluations += 1;
+                res.violation(format!("c08_shapes:hang[{e}]"), format!("child did not finish ({e}) for the look-up graph {scripts:?}"), replay);
+            }
+        }
+        let _ = std::fs::remove_file(&inp);
+        let _ = std::fs::remove_file(&outp);
+        if res.samples.len() < 2 {
+            res.sample(json!({"scripts": scripts, "history": ops}));
+        }
+    })
+}
